@@ -37,11 +37,11 @@ def load_variants():
 
 
 def apply_edits(root, edits):
-    for rel, old, new in edits:
+    for rel, old, new, *rest in edits:
         p = os.path.join(root, rel)
         s = open(p).read()
         cnt = s.count(old)
-        if cnt != 1:
+        if cnt != (rest[0] if rest else 1):
             return f"edit anchor occurs {cnt} times in {rel}: {old[:60]!r}"
         open(p, "w").write(s.replace(old, new))
     return None
@@ -56,7 +56,7 @@ def run_variant(v):
         if err:
             return v, "BROKEN-VARIANT", err
         # the variant must still compile
-        for rel, _, _ in v["edits"]:
+        for rel, *_ in v["edits"]:
             r = subprocess.run([PY, "-m", "py_compile", os.path.join(dst, rel)],
                                capture_output=True, text=True)
             if r.returncode != 0:
